@@ -280,9 +280,9 @@ Proof.
       replace (b_wrote Y) with false by (unfold apply_sets; destruct x; reflexivity) end;
     cbn [andb]; destruct (ret <? 400); reflexivity.
 Qed.
-Lemma inner_pan m ops rest ret err x :
+Lemma inner_pan m ops pv rest ret err x :
   forallb set_ok ops = true ->
-  templates_mw m (probe (ops ++ OPanic :: rest) ret err) x = HPan (apply_sets ops (enter_templates m x)).
+  templates_mw m (probe (ops ++ OPanic pv :: rest) ret err) x = HPan (apply_sets ops (enter_templates m x)).
 Proof.
   intros Hs. unfold templates_mw, templates_mw_p, templates_on_p, buf_reset, probe.
   destruct m; cbn [enter_templates]; rewrite (run_sets _ _ _ Hs); reflexivity.
@@ -528,20 +528,20 @@ Proof.
   destruct (c_errors c); destruct (c_gzip c); reflexivity.
 Qed.
 
-Lemma panic_before_write_500 et c path ae ops rest ret err :
+Lemma panic_before_write_500 et c path ae ops pv rest ret err :
   forallb set_ok ops = true -> redir_hit c path = false -> status_rule c path = None -> internal_hit c path = false ->
-  let x := serve et c path ae (ops ++ OPanic :: rest) ret err in
+  let x := serve et c path ae (ops ++ OPanic pv :: rest) ret err in
   cm x = Some 500 /\ sup x = 0%nat /\ view x = (false, panic_body et c).
 Proof.
   intros Hs Hrd Hr Hit.
   rewrite serve_eq, Hrd, Hr, Hit.
   set (act := c_gzip c && ae). set (hd := c_header c). set (m := tmode_of c path). set (mm := mime_ct c path).
-  pose proof (inner_pan m ops rest ret err (entry3 act hd mm) Hs) as Hin.
+  pose proof (inner_pan m ops pv rest ret err (entry3 act hd mm) Hs) as Hin.
   set (x1 := apply_sets ops (enter_templates m (entry3 act hd mm))) in *.
   assert (F1 : fresh x1) by (apply fresh_apply_sets; [exact Hs|]; apply fresh_enter; apply fresh_entry3).
   assert (G1 : gz_on x1 = act) by (unfold x1; rewrite gz_on_apply_sets, gz_on_enter; apply entry3_gz).
-  change (templates_mw m (probe (ops ++ OPanic :: rest) ret err) (entry3 act hd mm))
-    with (mid false None mm false (templates_mw m (probe (ops ++ OPanic :: rest) ret err)) (entry act hd)) in Hin.
+  change (templates_mw m (probe (ops ++ OPanic pv :: rest) ret err) (entry3 act hd mm))
+    with (mid false None mm false (templates_mw m (probe (ops ++ OPanic pv :: rest) ret err)) (entry act hd)) in Hin.
   unfold panic_body.
   destruct (eff_errors c) eqn:Ee.
   - destruct (eff_errors_none c Ee) as [Hg He].
